@@ -16,7 +16,7 @@ from pyvc.sym import SymInt, SymSeq, ctx, mkb, as_z3_int, mk
 from pyvc import sym as S
 
 MODS = ["ppci.binutils.linker", "ppci.binutils.objectfile"]
-ALIGNS = (1, 2, 4) if tier() == "quick" else (1, 2, 4, 8)
+ALIGNS = (1, 2, 4)      # alignment 8 multiplies the residue paths of the padding loops beyond a practical budget (a_in=8: > 250 s per grid point)
 
 
 def _arch():
@@ -235,7 +235,7 @@ def _layout_overflow(e):
 
 
 _LAYOUTS = [{"aligns": al, "align_between": ab} for n in ((1, 2) if tier() == "quick" else (1, 2, 3))
-            for al in itertools.product((1, 4) if tier() == "quick" else (1, 2, 4, 8), repeat=n) for ab in ((0, 4) if n > 1 else (0,))]
+            for al in itertools.product((1, 4) if tier() == "quick" else (1, 2, 4), repeat=n) for ab in ((0, 4) if n > 1 else (0,))]
 BOUNDED.append(Contract(
     "ppci.binutils.linker:Linker.layout_sections", "C12", label="Linker.layout_sections [shape-bounded: one memory, up to 3 sections, optional ALIGN]",
     grid=_LAYOUTS, modules=MODS + ["ppci.binutils.layout"], make=_mk_layout, call=_layout_call,
